@@ -282,3 +282,60 @@ Proof.
   cbv zeta. split; [|repeat split; vm_compute; reflexivity].
   repeat constructor; simpl; intuition discriminate.
 Qed.
+
+(* ------------------------------------------------------------------------------------ *)
+(* SUBTOTALS FLAGGED HIDDEN, wherever the insertion is defined.  [list_in_force d] is the
+   transforms' "insertions" list when the transforms carry that key, else the list of the variable
+   VIEW (references.view.transform.insertions).  The subtotals of a dimension are, in definition
+   order, exactly the insertions of the list in force that are well-formed, NOT flagged
+   "hide": true and have a valid addend: the flag counts on a view insertion as on a transforms
+   insertion, and the view's flags play no part once the transforms override the list.  Together
+   with C09_subtotal_iff (every subtotal, and nothing else negative, is in the order unless the
+   opposing dimension prunes everything) this is "a subtotal is shown iff it is not flagged
+   hidden".  Proofs/OrderViewHide.v. *)
+From CC Require Import Proofs.OrderViewHide.
+Local Close Scope Q_scope.
+Local Open Scope nat_scope.
+
+Theorem C09_subtotal_shown_iff_not_flagged d i :
+  d_array d = false ->
+  (In i (map snd (subtotals d)) <->
+   In i (list_in_force d) /\ i_wf i = true /\ i_hide i = false
+   /\ existsb (fun t => imem t (d_ids d)) (i_terms i) = true).
+Proof. exact (subtotal_iff d i). Qed.
+Print Assumptions C09_subtotal_shown_iff_not_flagged.
+
+Theorem C09_subtotals_count d :
+  d_array d = false ->
+  List.length (subtotals d) = List.length (filter (ins_valid (d_ids d)) (list_in_force d)).
+Proof. exact (subtotals_count d). Qed.
+Print Assumptions C09_subtotals_count.
+
+Theorem C09_view_insertion_flagged_hidden d i :
+  d_array d = false -> d_tins d = None -> In i (d_view d) -> i_hide i = true ->
+  ~ In i (map snd (subtotals d)).
+Proof. exact (view_hidden_not_subtotal d i). Qed.
+Print Assumptions C09_view_insertion_flagged_hidden.
+
+Theorem C09_transforms_insertions_override_view d l :
+  d_array d = false -> d_tins d = Some l ->
+  map snd (subtotals d) = filter (ins_valid (d_ids d)) l.
+Proof. exact (transforms_insertions_override d l). Qed.
+Print Assumptions C09_transforms_insertions_override_view.
+
+(* non-vacuity: categories 1 2 3; the VIEW defines three subtotals (top: 1+2, after 2: 2+3
+   flagged hidden, bottom: 3).  View in force: the flagged one is gone (order -3 0 1 2 -1 with
+   two subtotals).  Transforms list = a copy of the flagged one WITHOUT the flag: only that one is
+   shown, after its anchor.  Transforms list empty: no subtotal. *)
+Example C09_view_hide_example :
+  let el z := mkElem (IInt z) false DNone in
+  let ins a h ts := mkIns None a true h (map IInt ts) in
+  let view := [ins (IStr "top"%string) false [1; 2]%Z; ins (IInt 2%Z) true [2; 3]%Z;
+               ins (IStr "bottom"%string) false [3]%Z] in
+  let dd tins := Collator.mkDim [el 1%Z; el 2%Z; el 3%Z] false view tins [] false in
+  List.length (subtotals (dd None)) = 2 /\
+  display_order (dd None) (ByAnchor OPayload) [] false = Ok [-2; 0; 1; 2; -1]%Z /\
+  display_order (dd (Some [ins (IInt 2%Z) false [2; 3]%Z])) (ByAnchor OPayload) [] false
+    = Ok [0; 1; -1; 2]%Z /\
+  display_order (dd (Some [])) (ByAnchor OPayload) [] false = Ok [0; 1; 2]%Z.
+Proof. cbv zeta. repeat split; vm_compute; reflexivity. Qed.
